@@ -9,6 +9,7 @@ import (
 	"os"
 	"path/filepath"
 	"runtime"
+	"runtime/pprof"
 	"sort"
 	"strings"
 	"time"
@@ -64,8 +65,19 @@ func main() {
 	if s := os.Getenv("VERIF_SEED"); s != "" {
 		fmt.Sscan(s, &seed)
 	}
+	if pf := os.Getenv("GOSYM_PROF"); pf != "" {
+		f, err := os.Create(pf)
+		if err == nil {
+			pprof.StartCPUProfile(f)
+			defer pprof.StopCPUProfile()
+		}
+	}
 	switch cmd {
 	case "check":
+		code := runCheck(prop, *tier, *repo, *verif, *workers, *only, seed, !*noReplay, !*noEvidence, *verbose)
+		pprof.StopCPUProfile()
+		os.Exit(code)
+	case "check-unused":
 		os.Exit(runCheck(prop, *tier, *repo, *verif, *workers, *only, seed, !*noReplay, !*noEvidence, *verbose))
 	case "replay":
 		os.Exit(runReplayCmd(prop, *repo, *verif))
